@@ -27,6 +27,12 @@ CLAIMED.update({
                 note="Trusted: z3, reference arithmetic in vx/checks/c26.py, symbolic math.gcd shim. Boxes: coefficients [-3,3]/[-4,4], addends [-4,4]/[-6,6], divisors [1,4]/[1,6], points [-12,12]/[-20,20]; print/parse uses boundary constants."),
 })
 
+CLAIMED.update({
+    "C20": dict(cat="translation_validation", design="DESIGN.md §4 C20",
+                text="Translation validation (M3): for every move graph over the register pool (all source/destination assignments with distinct destinations: chains, fan-out, cycles, several cycles, self-moves), every designated free-register choice and 32/64-bit widths, the real ParallelMovPattern lowers riscv.parallel_mov and the emitted mv/fmv.s/fmv.d/xor sequence is executed on a RISC-V register-file model with SYMBOLIC 64-bit initial contents; z3 decides for all contents that every destination holds its source's initial value and nothing else but designated free registers changed; PassFailedException is accepted.",
+                note="Trusted: z3, vx/rvsem.py (mv/xor/fmv.s with NaN boxing/fmv.d). Pools: 3 int + 2 float registers mixed (<=4/5 moves), thorough adds all graphs over 4 int and over 3 float registers."),
+})
+
 NOT_APPLICABLE = {
     "C05": "custom assembly formats: the quantifier is over ~80 dialects' op definitions/format programs; no data dimension for a solver beyond what C04/C06 cover for leaves (DESIGN §5)",
     "C17": "pass x corpus-module cross product: deciding it means running each pair concretely; no symbolic dimension (DESIGN §5)",
